@@ -50,6 +50,17 @@ def gen_tasks(tier, seed, kind="lae"):
             nf = {v: rng.choice((0, 1, 2, 3)) for v in G.nodes()}
             if any(nf.values()):
                 tasks.append({**base, "edges": es, "node_flow": nf, "node_mode": True, "kwargs": {"k": kk, "weight_type": "int", "flow_attr_origin": "node"}})
+            # structured weights: one light (zero) edge shared by heavy routes, and one heavy edge among light ones --
+            # the optimum then needs an error / explained value well above the largest single weight
+            on_routes = {e: sum(1 for r in routes if e in set(zip(r[:-1], r[1:]))) for e in es}
+            best = max(on_routes.values())
+            estar = rng.choice([e for e in es if on_routes[e] == best])     # the edge shared by most routes (a bridge when there is one)
+            light = [(u, v, 0 if (u, v) == estar else 4) for (u, v) in es]
+            heavy = [(u, v, 4 if (u, v) == estar else rng.choice((0, 1))) for (u, v) in es]
+            for kk2 in sorted({2, min(3, max(1, len(routes)))}):
+                tasks.append({**base, "edges": light, "kwargs": {"k": kk2, "weight_type": "int"}})
+                tasks.append({**base, "edges": heavy, "kwargs": {"k": kk2, "weight_type": "int"}})
+            tasks.append({**base, "edges": light, "kwargs": {"k": 2, "weight_type": "float"}})
             if kind == "mpe":
                 tasks.append({**base, "edges": arb, "plf": {"ranges": [[0, 3], [4, 50]], "factors": [1, 2]},
                               "kwargs": {"k": kk, "weight_type": "int", "path_length_ranges": [[0, 3], [4, 50]], "path_length_factors": [1, 2]}})
@@ -65,6 +76,19 @@ def gen_tasks(tier, seed, kind="lae"):
         tasks.append({**base, "edges": arb, "ignored": [e0], "kwargs": {"k": 1, "weight_type": "int", "elements_to_ignore": [e0]}})
         tasks.append({**base, "edges": arb, "scaling": [[list(e0), 0.5]], "kwargs": {"k": 2, "weight_type": "int", "error_scaling": [[list(e0), 0.5]]}})
         tasks.append({**base, "edges": arb, "kwargs": {"k": 2, "weight_type": "int", "optimization_options": {"optimize_with_safe_sequences": False}}})
+        inner = [v for v in G.nodes() if G.in_degree(v) > 0 and G.out_degree(v) > 0]
+        if inner:
+            v, w = rng.choice(inner), rng.choice(inner)
+            tasks.append({**base, "edges": arb, "starts": [v], "ends": [w], "kwargs": {"k": 2, "weight_type": "int", "additional_starts": [v], "additional_ends": [w]}})
+            # node-weighted with walks that may start / end at inner nodes
+            nf = {x: rng.choice((1, 2, 3, 5)) for x in G.nodes()}
+            tasks.append({**base, "edges": es, "node_flow": nf, "node_mode": True, "starts": [], "ends": [w],
+                          "kwargs": {"k": 2, "weight_type": "int", "flow_attr_origin": "node", "additional_ends": [w]}})
+            tasks.append({**base, "edges": es, "node_flow": nf, "node_mode": True, "starts": [v], "ends": [],
+                          "kwargs": {"k": 2, "weight_type": "int", "flow_attr_origin": "node", "additional_starts": [v]}})
+        nfz = {x: rng.choice((0, 1, 2, 3)) for x in G.nodes()}
+        if any(nfz.values()):
+            tasks.append({**base, "edges": es, "node_flow": nfz, "node_mode": True, "kwargs": {"k": 1, "weight_type": "int", "flow_attr_origin": "node"}})
     def _has_positive(t):
         ign = {tuple(e) if isinstance(e, list) else e for e in t["ignored"]}
         z = {tuple(k) if isinstance(k, list) else k for k, v in (t["scaling"] or []) if v == 0}
@@ -97,7 +121,7 @@ def build_spec(task, G, mult_max=None):
         if task["kind"] == "cover":
             fmax = max(fmax, G.number_of_nodes())
         mm = mult_max or (int(fmax) + 1)
-        sp = spec.WalkEuler(G, k, wtype=wt, starts=task["starts"], ends=task["ends"], allow_empty=allow_empty, mult_max=mm)
+        sp = spec.WalkEuler(G, k, wtype=wt, starts=task["starts"], ends=task["ends"], allow_empty=allow_empty, mult_max=mm, bound_visits=task["node_mode"])
     else:
         sp = spec.RouteSpec(G, k, wtype=wt, starts=task["starts"], ends=task["ends"], allow_empty=allow_empty, sym_break=not sup)
     cons = list(sp.cons)
@@ -362,6 +386,13 @@ def _cap_diag(task, m, lp, sp, mdl):
     try:
         cols = models.edge_cols(m)
         mults, _ws = sp.read(mdl)
+        if task["node_mode"]:
+            for i in range(sp.k):
+                for v in sp.G.nodes():
+                    visits = mdl.eval(sp.count(i, v), model_completion=True).as_long()
+                    ub = lp.ub[cols[(v + ".0", v + ".1", 0)]]
+                    if ub is not None and visits > ub:
+                        return ":needs-traversals-above-repetition-cap"
         for mm in mults:
             for e, c in mm.items():
                 ie = layers.internal_edge(e, task["node_mode"])
@@ -383,7 +414,7 @@ def _consistency(task, G, m, key, res, how, o_h, delta, vals=None):
         if sol_full is None:
             sol_full = m._solution
         rep_obj = m.get_objective_value()
-        valid = m.is_valid_solution()
+        valid = m.is_valid_solution() if kind == "lae" else True     # only C07 speaks about the model's own validity check
     except Exception as e:
         res["violations"].append({"signature": f"{cls}:getter-raised-{type(e).__name__}", "summary": f"{task['name']} [{how}]: {type(e).__name__}: {e}",
                                   "replay": {"kind": how, "task": task, "values": [str(x) for x in (vals or [])]}})
